@@ -332,6 +332,10 @@ pub struct ChrootCall {
     pub block: usize,
     pub ret: Option<usize>,
     pub demand: Demand,
+    /// the function calls both chdir and a configured, imported privilege-dropping function
+    pub both: bool,
+    /// chdir-call blocks reachable after the chroot call (strict reading)
+    pub strict: BTreeSet<usize>,
 }
 
 /// `privs`: configured privilege-dropping functions that are imported.
@@ -342,10 +346,10 @@ pub fn chroot_expectation(flow: &Flow, privs: &[Callee]) -> Vec<ChrootCall> {
         let calls_priv = privs.iter().any(|p| !flow.calls_of(f, *p).is_empty());
         let both = calls_chdir && calls_priv;
         for (block, ret) in flow.calls_of(f, Callee::Chroot) {
+            let strict = flow.reachable_calls(f, ret, Callee::Chroot, Callee::Chdir, Reading::Strict);
             let demand = if !flow.case.chdir_imported {
                 Demand::Warn
             } else {
-                let strict = flow.reachable_calls(f, ret, Callee::Chroot, Callee::Chdir, Reading::Strict);
                 let liberal = flow.reachable_calls(f, ret, Callee::Chroot, Callee::Chdir, Reading::Liberal);
                 if both || !strict.is_empty() {
                     Demand::NoWarn
@@ -355,7 +359,7 @@ pub fn chroot_expectation(flow: &Flow, privs: &[Callee]) -> Vec<ChrootCall> {
                     Demand::Open
                 }
             };
-            out.push(ChrootCall { f, block, ret, demand });
+            out.push(ChrootCall { f, block, ret, demand, both, strict });
         }
     }
     out
